@@ -46,6 +46,16 @@
                                  every expression of the configuration in force is a key
      proxy_managed p m u         acl is_managed over the proxy's CURRENT state (the keys
                                  read by Reader.parse)
+   Histories with requirements, the suite's run function (ReloadReq.v)
+     qrun SameExpr ops rinit     the same transition system with registrations =
+                                 expression + {body, request capture}; erase_state of it
+                                 IS run Recheck of the erased history (C14_requirements_irrelevant)
+     run_reload2 k               what suite reload evaluates on every case k; a case it
+                                 accepts is a run of run Recheck (C14_accepted_reload_case_is_a_run)
+   Request hosts that name a port (Port.v)
+     get_flow_v AsSent           = C03.Model.get_flow (the code); HostNameFallback = the
+                                 reading of seeded change C14-12 (no suite evaluates it)
+     names_port u                the request host ends in :digits (decidable)
    The theorems of the first round (C14_cover_flows .. C14_no_bypass_policies, with
    stars_last, the config-wide kind_consistent and the broader url_ok) are kept
    unchanged; they are consequences (C14_old_conditions_imply_new). *)
@@ -640,6 +650,23 @@ Theorem C14_stale_expressions_unmanaged : forall ops, no_leak (run Recheck ops i
 Proof. exact no_leak_after_reloads. Qed.
 Print Assumptions C14_stale_expressions_unmanaged.
 
+(* ---- ... and they DO leave it: after any history whose clock steps are not
+        negative, once the clock has moved by staleVersionTTL (or more) no
+        un-management is pending, every key of endpoints.map is an expression of
+        the configuration in force, and when that configuration does not manage
+        all the keys are EXACTLY its expressions.  (A negative clock step would
+        postpone a pending job beyond now + TTL: C14_demo_unmanaged_after_ttl;
+        suite reload refuses a case that carries one.) ---- *)
+Theorem C14_unmanaged_after_ttl : forall ops d,
+  Forall nonneg_op ops -> ttl <= d ->
+  let s := run Recheck (ops ++ [Advance d]) init in
+  s_pend s = [] /\
+  (forall k, In k (p_map (s_px s)) -> In k (cur_eps (s_cur s))) /\
+  (forall c, s_cur s = Some c -> q_all c = false ->
+             forall k, In k (p_map (s_px s)) <-> In k (q_eps c)).
+Proof. exact drained_after_ttl. Qed.
+Print Assumptions C14_unmanaged_after_ttl.
+
 (* ---- the code before repair F-C14i: the expressions to un-manage are found
         with lo.Difference over POINTERS to freshly built objects = all the
         previous ones.  Load A; load A again; the delayed un-management runs:
@@ -718,7 +745,48 @@ Example C14_demo_policy_history :
   /\ managed_ok (run ByExpr demo_policy_history init) = false.
 Proof. vm_compute. repeat split; reflexivity. Qed.
 
-(* un-management is still effective: A, then B, TTL elapses: exactly B's
+(* the NON-manage-all case of C14_no_bypass_policies_after_reloads: a global
+   remedy is dropped by a reload (delayed un-management) that keeps the endpoint.
+   Under manage-all the endpoint's expression was never PUT; the second load PUTs
+   it; after the TTL the unmanage_global job has run: proc.manage_all is off, one
+   key, the endpoint's transaction is managed by that key and another is not.
+   All hypotheses of the theorem hold for it. *)
+Definition demo_policy_history_no_all : list op :=
+  [ Load Flows (policy_req [pd "GET" "a.com/x"] g_on []);
+    Load (Policies false) (policy_req [pd "GET" "a.com/x"] [] []);
+    Advance ttl ].
+Example C14_demo_policy_history_no_all :
+  s_cur (run Recheck demo_policy_history_no_all init) = Some (policy_req [pd "GET" "a.com/x"] [] [])
+  /\ policy_manage_all [] [] = false
+  /\ p_all (s_px (run Recheck [Load Flows (policy_req [pd "GET" "a.com/x"] g_on [])] init)) = true
+  /\ p_map (s_px (run Recheck [Load Flows (policy_req [pd "GET" "a.com/x"] g_on [])] init)) = []
+  /\ p_all (s_px (run Recheck demo_policy_history_no_all init)) = false
+  /\ List.length (p_map (s_px (run Recheck demo_policy_history_no_all init))) = 1%nat
+  /\ s_pend (run Recheck demo_policy_history_no_all init) = []
+  /\ (exists pt, C13.Model.build [pd "GET" "a.com/x"] = Some pt)
+  /\ C13.Model.kind_consistentb [pd "GET" "a.com/x"] = true
+  /\ url_ok_exact (bs "a.com/x") (bs "a.com/x") = true
+  /\ proxy_managed (s_px (run Recheck demo_policy_history_no_all init)) (bs "GET") (bs "a.com/x") = true
+  /\ proxy_managed (s_px (run Recheck demo_policy_history_no_all init)) (bs "GET") (bs "a.com/y") = false.
+Proof. vm_compute. repeat split; try reflexivity. eexists; reflexivity. Qed.
+
+(* hypotheses of C14_unmanaged_after_ttl: the clock steps of demo_history are not
+   negative; with a negative step in between, the job scheduled at 0 + TTL is
+   still pending after a later step of exactly the TTL (the premise is needed) *)
+Example C14_demo_unmanaged_after_ttl :
+  Forall nonneg_op demo_history
+  /\ s_pend (run Recheck (demo_history ++ [Advance ttl]) init) = []
+  /\ strs_same (p_map (s_px (run Recheck (demo_history ++ [Advance ttl]) init)))
+                (q_eps (flows_req demo)) = true
+  /\ List.length (s_pend (run Recheck [Load Flows (flows_req demo); Load Flows (flows_req demo_b);
+                                       Advance (-5); Advance ttl] init)) = 1%nat.
+Proof.
+  split; [repeat constructor; cbn; discriminate |].
+  vm_compute. repeat split; reflexivity.
+Qed.
+
+(* the same on the smallest history, with the instant before (the general
+   statement is C14_unmanaged_after_ttl): A, then B, TTL elapses: exactly B's
    expressions are left; at TTL-1ns A's are still there (transactions in flight) *)
 Example C14_demo_unmanage_effective :
   strs_same (p_map (s_px (run Recheck [Load Flows (flows_req demo); Load Flows (flows_req demo_b);
@@ -774,6 +842,48 @@ Theorem C14_stale_expressions_unmanaged_any_requirements : forall ops,
 Proof. intros ops. rewrite C14_requirements_irrelevant. apply C14_stale_expressions_unmanaged. Qed.
 Print Assumptions C14_stale_expressions_unmanaged_any_requirements.
 
+(* ---- the suite's run function: [run_reload2] (what ./check evaluates on every
+        case of suite reload) threads the states of [qrun SameExpr]: a case it
+        accepts shows, after each of its steps, the proxy state of
+        [run Recheck] after the history those steps denote (ops_of: a refused
+        load denotes no operation; the first policy load is BuildInitialFromFile)
+        with the requirements forgotten.  So the theorems above are about the
+        function the implementation is compared with. ---- *)
+Theorem C14_accepted_reload_case_is_a_run : forall k n o ok all keys,
+  run_reload2 k = None ->
+  nth_error k n = Some (o, (ok, all, keys)) ->
+  let ops := ops_of SameExpr rinit (map fst (firstn (S n) k)) in
+  let s := run Recheck (map erase_op ops) init in
+  p_all (s_px s) = all /\ strs_same (p_map (s_px s)) keys = true.
+Proof. exact accepted_reload_case_is_a_run. Qed.
+Print Assumptions C14_accepted_reload_case_is_a_run.
+
+(* an accepted case also has no negative clock step (the premise of
+   C14_unmanaged_after_ttl is enforced by the suite) *)
+Theorem C14_accepted_reload_case_clock_steps_nonneg : forall k,
+  run_reload2 k = None -> neg_adv2 k = false.
+Proof. intros k H. exact (proj1 (run_reload2_with_none SameExpr k H)). Qed.
+Print Assumptions C14_accepted_reload_case_clock_steps_nonneg.
+
+(* non-vacuity: a three-step case that is accepted; the history it denotes; the
+   same case with a wrong observation, and with a negative clock step, is not *)
+Definition ft (id : Z) (u : string) (ms : list string) : flow_t := (id, bs u, map bs ms).
+Definition demo_case : case_reload2 :=
+  [ (R2LoadF [(ft 0 "a.com/x" ["GET"], (true, false))],
+     (true, false, q_eps (flows_req [mf 0 "a.com/x" ["GET"]])));
+    (R2LoadF [(ft 0 "b.org/y" ["GET"], (false, false))],
+     (true, false, q_eps (flows_req [mf 0 "a.com/x" ["GET"]; mf 1 "b.org/y" ["GET"]])));
+    (R2Advance ttl, (false, false, q_eps (flows_req [mf 0 "b.org/y" ["GET"]]))) ].
+Example C14_demo_accepted_case :
+  run_reload2 demo_case = None
+  /\ ops_of SameExpr rinit (map fst demo_case)
+     = [ QLoad Flows (flows_rreq [(mf 0 "a.com/x" ["GET"], (true, false))]);
+         QLoad Flows (flows_rreq [(mf 0 "b.org/y" ["GET"], (false, false))]); QAdvance ttl ]
+  /\ run_reload2 (app demo_case [(R2Advance 1, (false, false, []))]) <> None
+  /\ run_reload2 (app demo_case [(R2Advance (-1), (false, false, q_eps (flows_req [mf 0 "b.org/y" ["GET"]])))])
+     = Some [].
+Proof. vm_compute. repeat split; try reflexivity. discriminate. Qed.
+
 (* ---- registrations compared "by value" (same expression AND same
         requirements; seeded change C14-9): a reload that keeps the filter and only
         drops the body-reading processor schedules the old registration for
@@ -822,7 +932,12 @@ Proof. vm_compute. repeat split; try reflexivity. discriminate. Qed.
    the registered expressions come from the declared URL in both.
    ====================================================================== *)
 
-(* the code: every request URL, port or not, declared with a port or not *)
+(* the code: every request URL, port or not, declared with a port or not.
+   NOTE: get_flow_v AsSent is C03.Model.get_flow by definition
+   (Port.get_flow_as_sent, reflexivity), so this is C14_cover_flows_exact +
+   C14_no_bypass_flows_exact VERBATIM — those already quantify over all request
+   URL byte strings; it adds no content and is kept as the "code" row next to the
+   refuted HostNameFallback row. *)
 Theorem C14_no_bypass_flows_any_request_host : forall fs x f,
   C03.Model.load_ok fs = true ->
   In f (get_flow_v AsSent (C03.Proofs.tree_of fs) x) ->
@@ -923,3 +1038,19 @@ Example C14_demo_ports :
   /\ names_port (bs "[::1]:8080/x") = false
   /\ names_port (bs ":8080/x") = false /\ names_port (bs "acme.com:/x") = false.
 Proof. vm_compute. repeat split; reflexivity. Qed.
+
+(* hypotheses of C14_no_bypass_flows_holds_outside_host_port, all at once: the
+   fallback reading, a request whose host names no port, a flow selected, the two
+   side conditions — and the conclusion *)
+Example C14_demo_outside_host_port :
+  let f := mf 1 "api.acme.com/v1/orders" ["GET"] in
+  let x := tx "GET" "api.acme.com/v1/orders" in
+  C03.Model.load_ok demo_ports = true
+  /\ names_port (C03.Model.t_url x) = false
+  /\ sel HostNameFallback "GET" "api.acme.com/v1/orders" = [1]
+  /\ In f (get_flow_v HostNameFallback (C03.Proofs.tree_of demo_ports) x)
+  /\ C03.SpecLocal.kc_at demo_ports f (C03.Proofs.url_of x) = true
+  /\ url_ok_exact (C03.Model.f_url f) (C03.Model.t_url x) = true
+  /\ managed (flows_manage_all demo_ports) (flows_endpoints demo_ports)
+             (C03.Model.t_method x) (C03.Model.t_url x) = true.
+Proof. vm_compute. repeat split; try reflexivity. left; reflexivity. Qed.
